@@ -3,7 +3,7 @@ CONSTANTS
   Keys <- KeysT
   Ids <- IdsT
   Lens <- LensT
-  Depth = 2
+  Depth = 1
   MaxN = 4
   Deviations <- NoDev
   Emit = TRUE
